@@ -2,7 +2,7 @@
 # tools/confirm_seed.sh <name>   (e.g. C01-1): confirms a seeded change from /tmp/mut/out/<name>:
 # demo passes on clean HEAD, patch applies, tree builds, 22 tests pass, demo fails with the patch.
 # Writes /tmp/seedchk/<name>.result ; on success copies it to /verif/seeded/<name>/.
-name="$1"; src=/tmp/mut/out/$name; wt=/tmp/seedchk/wt-$name; res=/tmp/seedchk/$name.result
+name="$1"; src=${SEED_SRC:-/tmp/mut/out}/$name; wt=/tmp/seedchk/wt-$name; res=/tmp/seedchk/$name.result
 mkdir -p /tmp/seedchk; rm -f "$res"
 git -C /repo worktree add --detach "$wt" HEAD >/dev/null 2>&1 || { echo "worktree failed" > "$res"; exit 1; }
 cleanup() { git -C /repo worktree remove --force "$wt" >/dev/null 2>&1; rm -rf "$wt"; }
